@@ -52,7 +52,7 @@ func vh_C08_lifecycle_callbacks() {
 	c := vNewClient(n, "u", tr)
 	// scenario: 0 connect || end ; 1 (connected+subscribed) alive tick || end ;
 	//           2 (connected) subscribe command || end
-	sc := vChoice("scenario", 3)
+	sc := vParam("c08_first_scenario", 0) + vChoice("scenario", vParam("c08_scenarios", 3))
 	end := vChoice("end", 4) // 0 Disconnect(), 1 transport closed, 2 node shutdown, 3 client unsubscribe+disconnect
 	if sc != 0 {
 		vAssert(vConnect(c), "connects")
